@@ -1383,6 +1383,14 @@ class TaintInterp:
             if name in ("add_nodes_from", "add_edges_from", "add_node", "add_edge", "remove_node", "remove_edge"):
                 return V("none")
         if k == "nodeview":
+            if name in ("values", "items", "keys"):
+                g = recv.x
+                o = self.src(ORDER, fi, e, f"m.nodes.{name}() (insertion order)")
+                if name == "keys":
+                    return seq(self.node(g=g), o, ("iter", g.oid))
+                if name == "values":
+                    return seq(V("attrdict", x=g), o, ("iter", g.oid))
+                return seq(tup([self.node(g=g), V("attrdict", x=g)]), o, ("iter", g.oid))
             if name == "data":
                 key = a[0] if a else kw.get("data")
                 if key is not None and key.kind == "const" and isinstance(key.x, str):
